@@ -141,7 +141,7 @@ def climb(rng, alg, ctx, steps=25):
 def run_shard(spec, rng, ctx):
     end = C.budget(spec)
     i = 0
-    while i < spec["max_cases"] and time.time() < end:
+    while i < spec["max_cases"] and C.now() < end:
         alg = ALGS[i % 4]
         if i % 10 == 9 and alg != "roundrobin":
             climb(rng, alg, ctx)
